@@ -96,6 +96,7 @@ CLAIMED = {
  "C16": ("Coq proof: 4-byte variable write / read-back and nickname write / read-back composed against the board model for every board content, value, slot and text; int32 split/join for all values; motor protocol (20 states x 36 requests) and byte exchange (256 x 32) swept exhaustively in the kernel by co-simulation with the board model",
          "Theorems C16_int32_round_trip and C16_nickname_round_trip: for every board content (32 slots, any nickname and motor state), every connected error-free client state, every signed 32-bit value and start slot 0..28 "
          "(resp. every nickname text) the write is a coherent run (the lines written are the lines the board answered) that returns True and stores exactly the four big-endian bytes (resp. the trimmed text), and the read-back returns the value. "
+         "Theorems C16_motors_any_board / C16_motors_query_any_board: the motor protocol and its decoding for every board (any variable store and nickname, all 20 motor states) and every integer request. "
          "Theorems C16_int32_split_join, C16_byte_exchange, C16_motors, C16_motors_clamp: against Spec/Board.v every int32 is stored as four big-endian bytes and read back; after motors_enable "
          "from any prior state the enabled flags and the global mode are as requested, also when only motor 2 is enabled. The python fake board used by the harness is re-derived from "
          "Spec/Board.v reply by reply on every run.",
